@@ -243,7 +243,13 @@ def _lengths(rng, cap, kind, minimum):
     return max(minimum, min(n, cap))
 
 
-def make_requests(rng, pool, caps, count, max_msgs, both_dirs, crypt_only, keys, start_id=0, min_msgs=1):
+def make_requests(rng, pool, caps, count, max_msgs, both_dirs, crypt_only, keys, start_id=0, min_msgs=1,
+                  cap_margin=0):
+    """cap_margin: long dialogues stay `cap_margin` bytes below the largest expressible body, so that a
+    single message at the very edge of the form (covered by the short sequences and by the model's
+    histories) does not end a 200 message dialogue early."""
+    if cap_margin:
+        caps = {k: (v - cap_margin if v < 100000 else v) for k, v in caps.items()}
     reqs = []
     for i in range(count):
         exp = rng.choice(["vanilla", "tbc", "wrath"])
@@ -389,7 +395,7 @@ def impl_to_spec(wd, prop, binary, sub, pool, caps, count, max_msgs, both_dirs, 
     reqs = make_requests(rng, pool, caps, count, max_msgs, both_dirs, crypt_only, keys)
     if long_dialogues:
         reqs += make_requests(rng, pool, caps, long_dialogues, long_len, True, True, keys, start_id=len(reqs),
-                              min_msgs=max(1, (long_len * 3) // 4))
+                              min_msgs=max(1, (long_len * 3) // 4), cap_margin=6)
     t0 = time.time()
     events = run_drive(binary, sub, reqs)
     lines, owner, fails = to_trace(reqs, events)
@@ -397,7 +403,10 @@ def impl_to_spec(wd, prop, binary, sub, pool, caps, count, max_msgs, both_dirs, 
         lines, owner = tamper(lines, owner)
     rejects, incomplete, stats = validate(wd, prop, lines)
     by_id = {r["id"]: r for r in reqs}
-    obs = list(fails)
+    # an aborted operation in a connection that already contains a rejected event is a consequence of
+    # that event (e.g. a reader fed the malformed frame), not a separate observation
+    rejected_reqs = {owner[rj["line"]] for rj in rejects}
+    obs = [f for f in fails if f[1]["request"]["id"] not in rejected_reqs]
     for rj in rejects:
         e = lines[rj["line"]]
         r = by_id[owner[rj["line"]]]
